@@ -48,23 +48,39 @@ def board(world, params, cfg=None):
     return world.run_op(thunk, cfg)
 
 
-def gen_argv(p):
+GEN_OPTS = [("-s", "--seed", "seed", 0), ("-w", "--width", "width", 3), ("-l", "--length", "length", 3),
+            ("-m", "--max_reward", "max_reward", 6), ("-p", "--prob_robot_break", "rb", 0.1),
+            ("-q", "--prob_light_break", "lb", 0.1), ("-r", "--prob_tile_break", "tb", 0.1),
+            ("-t", "--prob_loose_tile", "lt", 0.3)]
+
+
+def gen_argv(p, form=None):
     """Command line for the generator.  Values are passed as the strings a user
-    would type (`repr` of a float round-trips exactly through argparse's float())."""
-    a = ["roberta_generator.py"]
-    def add(flag, key):
-        if key in p and p[key] is not None:
-            v = p[key]
-            v = v if isinstance(v, str) else repr(v)
-            if v.startswith("-"):
-                a.append(flag + v)      # `-p-0.1`: the way to hand argparse a negative value
-            else:
-                a.extend([flag, v])
-    add("-s", "seed"); add("-w", "width"); add("-l", "length"); add("-m", "max_reward")
-    add("-p", "rb"); add("-q", "lb"); add("-r", "tb"); add("-t", "lt")
+    would type (`repr` of a float round-trips exactly through argparse's float()).
+    form (an int) picks, deterministically, one of the equivalent spellings a user may
+    choose: short or long options, `--opt=value`, any option order, defaults left out."""
+    import random
+    rng = random.Random(form) if form is not None else None
+    groups = []
+    for short, long_, key, default in GEN_OPTS:
+        if key not in p or p[key] is None:
+            continue
+        v = p[key]
+        if rng is not None and type(v) is type(default) and v == default and repr(v) == repr(default) and rng.random() < 0.5:
+            continue                    # the documented default, left out
+        v = v if isinstance(v, str) else repr(v)
+        style = rng.choice(["short", "long", "long="]) if rng is not None else "short"
+        if style == "long=":
+            groups.append([long_ + "=" + v])
+        elif v.startswith("-"):
+            groups.append([short + v] if style == "short" else [long_ + "=" + v])   # the ways to pass a negative value
+        else:
+            groups.append([short if style == "short" else long_, v])
     if p.get("force_down"):
-        a.append("-f")
-    return a
+        groups.append(["-f" if (rng is None or rng.random() < 0.5) else "--force_down"])
+    if rng is not None:
+        rng.shuffle(groups)
+    return ["roberta_generator.py"] + [x for g in groups for x in g]
 
 
 def gen_cli(world, params, cfg=None, entropy=0, same_process=False):
@@ -74,7 +90,7 @@ def gen_cli(world, params, cfg=None, entropy=0, same_process=False):
     if not same_process:
         world.restart(entropy)
         cfg["process_ends"] = True
-    cfg["argv"] = gen_argv(params)
+    cfg["argv"] = gen_argv(params, form=entropy if entropy else None)
     return world.run_op(lambda: proc.mod("roberta_generator").main(), cfg)
 
 
@@ -97,11 +113,24 @@ def solver_cli(world, path, save, log=None, cfg=None, entropy=0, capture=None):
     (wrapped at the module attribute - the seam main() itself resolves).
     """
     world.restart(entropy)
-    argv = ["conditionalrewards.py", "-f", path]
+    import random
+    rng = random.Random(entropy) if entropy else None
+    shown = path
+    if rng is not None and not path.startswith("/"):
+        shown = rng.choice([path, path, "./" + path, path.split("/")[0] + "/../" + path])   # same file, other spelling
+    groups = [[rng.choice(["-f", "--file"]) if rng else "-f", shown]]
+    if rng is not None and rng.random() < 0.3:
+        groups = [[groups[0][0] + "=" + shown]] if groups[0][0] == "--file" else groups
     if save:
-        argv.append("-s")
+        groups.append([rng.choice(["-s", "--save_results"]) if rng else "-s"])
     if log:
-        argv += ["-l", log]
+        lv = log
+        if rng is not None and rng.random() < 0.5:
+            lv = {"i": "INFO", "d": "DEBUG", "dd": "FULL_DEBUG"}.get(log, log)
+        groups.append([rng.choice(["-l", "--log_level"]) if rng else "-l", lv])
+    if rng is not None:
+        rng.shuffle(groups)
+    argv = ["conditionalrewards.py"] + [x for g in groups for x in g]
     cfg = dict(cfg or {})
     cfg["argv"] = argv
     cfg["process_ends"] = True
